@@ -263,8 +263,14 @@ def rule_row_order(ck, repo, R):
         # the fresh adjacency table: `<new>._bonds = T = ...`
         tabs = [a for a in ast.walk(f.node) if isinstance(a, ast.Assign) and any(isinstance(t, ast.Attribute) and t.attr == '_bonds' for t in a.targets)
                 and any(isinstance(t, ast.Name) for t in a.targets)]
-        ck.require(len(tabs) == 1, f'{fq}: `<new>._bonds = T = ...` not found')
-        table = next(t.id for t in tabs[0].targets if isinstance(t, ast.Name))
+        if len(tabs) == 1:
+            table = next(t.id for t in tabs[0].targets if isinstance(t, ast.Name))
+        else:
+            # split form: `T = {}` ... `<new>._bonds = T`
+            plain = [a for a in ast.walk(f.node) if isinstance(a, ast.Assign) and len(a.targets) == 1 and isinstance(a.targets[0], ast.Attribute) and
+                     a.targets[0].attr == '_bonds' and isinstance(a.value, ast.Name) and not (isinstance(a.targets[0].value, ast.Name) and a.targets[0].value.id == 'self')]
+            ck.require(len(plain) == 1, f'{fq}: `<new>._bonds = T = ...` not found')
+            table = plain[0].value.id
         # row aliases: `T[k] = row = {}` or `row = T[k]`
         rows = {}
         for a in ast.walk(f.node):
@@ -273,6 +279,8 @@ def rule_row_order(ck, repo, R):
                 nms = [t for t in a.targets if isinstance(t, ast.Name)]
                 if subs and nms:
                     rows[nms[0].id] = src(subs[0].slice)
+                elif subs and len(a.targets) == 1 and isinstance(a.value, ast.Name):
+                    rows[a.value.id] = src(subs[0].slice)  # `row = {}` ... `T[k] = row`
                 elif len(a.targets) == 1 and isinstance(a.targets[0], ast.Name) and isinstance(a.value, ast.Subscript) and src(a.value.value) == table:
                     rows[a.targets[0].id] = src(a.value.slice)
         # bond stores: row[x] = ...  or  T[k][x] = ...
